@@ -68,6 +68,7 @@ class Prop:
     trusted_extra = []
     rule = ""
     partial_note = ""
+    lean_out = None         # set by the engine before each oracle call: the model driver's output lines for the same ops
 
     def oracle(self, name, ops, go):
         """evaluate the property on the implementation's outputs of one stream; return list of Violation"""
@@ -264,6 +265,7 @@ def run_check(prop, tier="quick", seed=0, replay=None):
                 traces_validated += ncases
             # oracle on the implementation's outputs (self-contained replays)
             try:
+                prop.lean_out = res["lean"]     # the proved model's answers, for oracles that use them as reference
                 vs = prop.oracle(st.name, ops, res["go"])
                 nontrivial |= prop.nontrivial(st.name, ops, res["go"])
             except Exception as e:
@@ -327,6 +329,7 @@ def run_check(prop, tier="quick", seed=0, replay=None):
                     res = runmod.both(binary, ops, parallel=st.parallel, harness_env=st.env, timeout=st.timeout)
                     sstat["ops"] += sum(1 for o in ops if o and not o.startswith("#"))
                     try:
+                        prop.lean_out = res["lean"]
                         vs = prop.oracle(st.name, ops, res["go"])
                     except Exception:
                         vs = []
